@@ -416,6 +416,11 @@ pub fn fax_decode(data: &[u8], params: &CCITTFaxDecodeParams) -> Result<Vec<u8>>
         if columns == 0 || columns > u16::MAX as usize || rows > u16::MAX as usize {
             bail!("unsupported CCITT geometry: {} columns, {} rows", columns, rows);
         }
+        // every coded line takes at least one bit: more rows than bits cannot be in the data (the
+        // decoder would pad the picture with white lines, 4 GiB for six bytes of data)
+        if rows > data.len().saturating_mul(8) {
+            bail!("CCITT data of {} bytes cannot hold {} rows", data.len(), rows);
+        }
         let height = if params.rows == 0 { None } else { Some(params.rows as u16)};
         // rows actually present are bounded by the data, not by /Rows: grow as lines arrive
         let mut buf = Vec::new();
